@@ -9,6 +9,7 @@
 #include "EntityHDF5.hpp"
 
 #include <nix/util/util.hpp>
+#include <nix/verif_hooks.hpp>
 
 #include <ctime>
 
@@ -30,6 +31,13 @@ EntityHDF5::EntityHDF5(const shared_ptr<IFile> &file, const H5Group &group)
 EntityHDF5::EntityHDF5(const shared_ptr<IFile> &file, const H5Group &group, const string &id, time_t time)
     : entity_file(file), entity_group(group)
 {
+#ifdef NIX_VERIF_HOOKS
+    if (nix::verif::armed()) {
+        std::string previous;
+        group.getAttr("entity_id", previous);
+        nix::verif::emit("id.write", group.name() + "\t" + previous + "\t" + id);
+    }
+#endif
     group.setAttr("entity_id", id);
     setUpdatedAt();
     forceCreatedAt(time);
